@@ -14,6 +14,7 @@ import (
 	"time"
 
 	"github.com/talostrading/sonic"
+	"github.com/talostrading/sonic/multicast"
 	"github.com/talostrading/sonic/sonicerrors"
 	"github.com/talostrading/sonic/sonicopts"
 	"golang.org/x/sys/unix"
@@ -88,6 +89,31 @@ type ioDriver struct {
 }
 
 func (d *ioDriver) fail(sig, format string, a ...any) { d.x.Fail(sig, format, a...) }
+
+var portCounter int
+
+// ownPort returns a UDP port from a range that belongs to this process alone. multicast.NewUDPPeer sets
+// SO_REUSEPORT before it binds, and the kernel may give such a socket an ephemeral port that a reuse-port socket of
+// ANOTHER worker process already has: unicast datagrams are then spread over both sockets and multicast probes of
+// one worker reach the other. Explicit, process-private ports keep the workers apart.
+func ownPort() int {
+	portCounter++
+	// below the ephemeral range (32768..60999), so that kernel-assigned ports of other sockets never collide
+	return 20000 + (os.Getpid()%78)*160 + portCounter%160
+}
+
+// newOwnPeer creates a UDPPeer on a process-private port (host "" = all interfaces).
+func newOwnPeer(ioc *sonic.IO, host string) (*multicast.UDPPeer, error) {
+	var err error
+	for i := 0; i < 8; i++ {
+		var p *multicast.UDPPeer
+		p, err = multicast.NewUDPPeer(ioc, "udp", fmt.Sprintf("%s:%d", host, ownPort()))
+		if err == nil {
+			return p, nil
+		}
+	}
+	return nil, err
+}
 
 func lowestFreeFd() int {
 	fd, err := syscall.Dup(0)
